@@ -248,6 +248,10 @@ func checkC17(c *Ctx) {
 	checkArgumentRoles(c, "C17.R6.argument-roles", pk, "codescan", 3)
 	checkAliasExpansionGuard(c, "C17.R1.alias-recursion", pk)
 	checkModelsRescanned(c, "C17.R8.models-rescanned", pk)
+	checkCommentsRaw(c, "C17.R8.comments-raw", pk)
+	checkBodyHasLastWord(c, "C17.R3.body-last-word", pk)
+	checkInputNormalised(c, "C17.R1.input-normalised", pk)
+	checkValueParsers(c, "C17.R4.value-parsers", pk)
 
 	// ---- R2 regexp arity; R4 tagger agreement
 	taggers := collectTaggers(c, pk, m)
@@ -1798,5 +1802,140 @@ func checkLocationsWritten(c *Ctx, rule string, pk *packages.Package) {
 				fmt.Sprintf("the scanner stores %q as a parameter location: not one of query, path, header, body, formData", s))
 			return true
 		})
+	}
+}
+
+// checkInputNormalised: the builder works on the caller's input document and reads its paths,
+// definitions, responses and extensions without further tests. newSpecBuilder makes each of them
+// non-nil under a test of that very field — an input document given with `-i` may lack any of
+// them on its own (a document without "paths" is the usual case when only definitions are shared).
+func checkInputNormalised(c *Ctx, rule string, pk *packages.Package) {
+	c.Rule(rule, "newSpecBuilder fills each nil collection of the input document under a test of that collection alone (top-level `if input.F == nil { input.F = … }`)", 4)
+	fd := load.FuncDecl(pk, "newSpecBuilder")
+	if fd == nil {
+		c.Anchor(rule, "codescan.newSpecBuilder", "not found")
+		return
+	}
+	info := pk.TypesInfo
+	var input types.Object
+	for _, fl := range fd.Type.Params.List {
+		for _, nm := range fl.Names {
+			if goan.NamedPath(info.TypeOf(nm)) == "github.com/go-openapi/spec.Swagger" {
+				input = info.Defs[nm]
+			}
+		}
+	}
+	if input == nil {
+		c.Anchor(rule, "codescan.newSpecBuilder › parameter of type *spec.Swagger", "not found")
+		return
+	}
+	fieldOf := func(e ast.Expr) string {
+		se, ok := ast.Unparen(e).(*ast.SelectorExpr)
+		if !ok {
+			return ""
+		}
+		if id, ok := ast.Unparen(se.X).(*ast.Ident); ok && info.Uses[id] == input {
+			return se.Sel.Name
+		}
+		return ""
+	}
+	topGuard := map[string]bool{}
+	for _, st := range fd.Body.List {
+		ifs, ok := st.(*ast.IfStmt)
+		if !ok {
+			continue
+		}
+		be, ok := ast.Unparen(ifs.Cond).(*ast.BinaryExpr)
+		if !ok || be.Op != token.EQL || !goan.IsIdent(be.Y, "nil") {
+			continue
+		}
+		f := fieldOf(be.X)
+		if f == "" {
+			continue
+		}
+		for _, s := range ifs.Body.List {
+			if as, ok := s.(*ast.AssignStmt); ok && len(as.Lhs) == 1 && fieldOf(as.Lhs[0]) == f {
+				topGuard[f] = true
+			}
+		}
+	}
+	seen := map[string]bool{}
+	ast.Inspect(fd.Body, func(n ast.Node) bool {
+		as, ok := n.(*ast.AssignStmt)
+		if !ok || len(as.Lhs) != 1 || len(as.Rhs) != 1 {
+			return true
+		}
+		f := fieldOf(as.Lhs[0])
+		if f == "" || seen[f] {
+			return true
+		}
+		switch info.TypeOf(as.Lhs[0]).Underlying().(type) {
+		case *types.Pointer, *types.Map:
+		default:
+			return true
+		}
+		seen[f] = true
+		c.Check(topGuard[f], rule, "codescan.newSpecBuilder › input."+f+" filled when nil", c.posOf(pk, as.Pos()), "if input."+f+" == nil { input."+f+" = … } at the top level",
+			"input."+f+" is given a value only under another condition than `input."+f+" == nil`: an input document that lacks this part alone keeps a nil "+f+", which the builder dereferences (or stores into) — generate spec -i panics instead of merging")
+		return true
+	})
+}
+
+// checkBodyHasLastWord: the YAML body of a swagger:operation is a whole operation object: what it
+// declares (tags, id, schemes …) is unmarshalled over what the annotation line gave. An
+// unconditional store into the same object after the unmarshalling takes back what the body said.
+func checkBodyHasLastWord(c *Ctx, rule string, pk *packages.Package) {
+	c.Rule(rule, "no field of the object a YAML body is unmarshalled into is overwritten unconditionally after the unmarshalling", 1)
+	info := pk.TypesInfo
+	n := 0
+	for _, fd := range load.AllFuncs(pk) {
+		if fd.Body == nil {
+			continue
+		}
+		for i, st := range fd.Body.List {
+			var target types.Object
+			ast.Inspect(st, func(m ast.Node) bool {
+				call, ok := m.(*ast.CallExpr)
+				if !ok {
+					return true
+				}
+				for _, a := range call.Args {
+					se, ok := ast.Unparen(a).(*ast.SelectorExpr)
+					if !ok || se.Sel.Name != "UnmarshalJSON" {
+						continue
+					}
+					if sel := info.Selections[se]; sel == nil || sel.Kind() != types.MethodVal {
+						continue
+					}
+					if id, ok := ast.Unparen(se.X).(*ast.Ident); ok {
+						target = info.Uses[id]
+					}
+				}
+				return true
+			})
+			if target == nil {
+				continue
+			}
+			n++
+			bad := ""
+			for _, later := range fd.Body.List[i+1:] {
+				as, ok := later.(*ast.AssignStmt)
+				if !ok {
+					continue
+				}
+				for _, l := range as.Lhs {
+					if se, ok := ast.Unparen(l).(*ast.SelectorExpr); ok {
+						if id, ok := ast.Unparen(se.X).(*ast.Ident); ok && info.Uses[id] == target {
+							bad = se.Sel.Name
+						}
+					}
+				}
+			}
+			c.Check(bad == "", rule, "codescan."+load.FuncName(fd)+" › the "+goan.NamedName(target.Type())+" keeps what the YAML body declared", c.posOf(pk, st.Pos()), "no unconditional store after the unmarshalling",
+				"the field "+bad+" of "+target.Name()+" is assigned unconditionally after the YAML body was unmarshalled into it: a value the body declares ("+strings.ToLower(bad)+": …) is replaced by the annotation line's, which is empty when the line does not give one — the operation loses what it declared, without an error")
+		}
+	}
+	if n == 0 {
+		c.Anchor(rule, "codescan › call passing <object>.UnmarshalJSON", "not found")
 	}
 }
